@@ -1,24 +1,28 @@
 (** C01 — Write→read round trip preserves every tile, the metadata and header settings.
 
     [tiles] is the archive's logical content: the (id, content) list sorted by id ([logical]).
-    Proved ([C01_roundtrip_partial]): for every archive value satisfying the store invariant, every
-    JSON-object metadata (canonical bytes [p_meta]), every header setting and every supported internal
-    compression, IF the directory fits the root directory (no leaf spill), then [to_bytes] succeeds and
-    opening the written bytes yields: byte-identical content for every tile, 'no such tile' for every
-    other id, equal metadata, equal tile type / compressions / zooms, and each coordinate as
-    [quantize_coord] = degrees of the stored i32 (C09 relates it to the nearest multiple of 1e-7).
+    Proved, for every archive value satisfying the store invariant, every JSON-object metadata (canonical
+    bytes [p_meta]), every header setting and every supported internal compression:
+    - [C01_roundtrip_fits]: if the directory fits the root directory (no leaf spill), [to_bytes] succeeds and
+      opening the written bytes yields byte-identical content for every tile, 'no such tile' for every
+      other id, equal metadata, equal tile type / compressions / zooms, and each coordinate as
+      [quantize_coord] = degrees of the stored i32 (C09 relates it to the nearest multiple of 1e-7);
+    - [C01_roundtrip_spill]: if it does not fit and the write succeeds, the written image has one level of
+      leaf directories ([C01_spill_layout]) and opening it yields the same;
+    - [C01_roundtrip_partial]: both cases in one statement — whenever [to_bytes] returns an image, opening it
+      gives the content back.
     Premises: no hash collision among the contents; contents of 1 .. 2^32-1 bytes; ids below 2^63 (all
-    valid tile ids are); fewer than 2^32-1 tiles; total size below 2^64; codec inverse law; the encoder
-    never returns an empty stream for non-empty input.
-    Missing for the full statement: the leaf-spill case (C06 gives the writer side; reading the leaves
-    back is not composed yet) — covered by the correspondence run and the direct oracle on archives of
-    4 500 … 50 000 tiles in all codecs. *)
+    valid tile ids are); fewer than 2^32-1 tiles; total size below 2^64; every leaf directory below 4 GiB
+    (its length is a u32); codec inverse law; the encoder never returns an empty stream for non-empty input.
+    Missing for the full statement: in the leaf-spill case the success of the write (termination of the
+    doubling loop with a root that fits, C06's open part) is a premise, not a conclusion — the
+    correspondence run and the direct oracle cover it on archives of 4 500 … 50 000 tiles in all codecs. *)
 Require Import PM.Base PM.Oracles PM.Params PM.Float PM.Header PM.HeaderProofs PM.Directory PM.Stream PM.TileManager PM.TileManagerProofs
-               PM.DirWriter PM.DirReader PM.Archive PM.FinishSpec PM.FinishProofs PM.RoundTripProofs.
+               PM.DirWriter PM.DirReader PM.Archive PM.FinishSpec PM.FinishProofs PM.SpillSpec PM.SpillProofs PM.RoundTripProofs PM.SpillRoundTrip.
 From Coq Require Import Sorting.Sorted.
 Open Scope N_scope.
 
-Theorem C01_roundtrip_partial : forall cx, codec_inv cx -> forall asy p tiles U root,
+Theorem C01_roundtrip_fits : forall cx, codec_inv cx -> forall asy p tiles U root,
   Inv cx (p_tm p) -> logical (p_tm p) = Ok tiles ->
   hash_inj_on cx U -> (forall c, In c U -> nlen c < two32) ->
   Forall (fun t => In (snd t) U /\ fst t < two63 /\ 1 <= nlen (snd t)) tiles -> nlen tiles + 1 < two32 ->
@@ -40,6 +44,56 @@ Theorem C01_roundtrip_partial : forall cx, codec_inv cx -> forall asy p tiles U 
     p_clon p' = quantize_coord (p_clon p) /\ p_clat p' = quantize_coord (p_clat p).
 Proof. exact roundtrip_fits. Qed.
 
+Theorem C01_roundtrip_spill : forall cx, codec_inv cx -> forall asy p tiles U root0 img,
+  Inv cx (p_tm p) -> logical (p_tm p) = Ok tiles ->
+  hash_inj_on cx U -> (forall c, In c U -> nlen c < two32) ->
+  Forall (fun t => In (snd t) U /\ fst t < two63 /\ 1 <= nlen (snd t)) tiles -> nlen tiles + 1 < two32 ->
+  StronglySorted (fun a b => fst a < fst b) tiles ->
+  p_icomp p <> CUnknown -> p_meta p <> [] -> json_parse cx (p_meta p) = Ok (Some (p_meta p)) ->
+  (forall b z, b <> [] -> compress cx asy (p_icomp p) b = Ok z -> z <> []) ->
+  p_minz p < 256 -> p_maxz p < 256 -> p_cz p < 256 ->
+  header_bytes = 127 -> max_dir_depth = Some 3 ->
+  encode_dir cx asy (p_icomp p) (fr_dir (spec_finish tiles)) = Ok root0 -> max_root_dir_length < nlen root0 ->
+  (forall k blobs ptrs, leaves_spec cx (p_icomp p) (chunks k (fr_dir (spec_finish tiles))) 0 = Ok (blobs, ptrs) ->
+                        Forall (fun b => 1 <= nlen b < two32) blobs) ->
+  nlen (fr_data (spec_finish tiles)) + 1 < two64 ->
+  to_bytes cx asy p = Ok img ->
+  exists p', from_reader cx img full_range = Ok p' /\
+    (forall id c, In (id, c) tiles -> get_tile (p_tm p') id = Ok (Some c)) /\
+    (forall id, ~ In id (map fst tiles) -> get_tile (p_tm p') id = Ok None) /\
+    p_meta p' = p_meta p /\ p_ttype p' = p_ttype p /\ p_tcomp p' = p_tcomp p /\ p_icomp p' = p_icomp p /\
+    p_minz p' = p_minz p /\ p_maxz p' = p_maxz p /\ p_cz p' = p_cz p /\
+    p_min_lon p' = quantize_coord (p_min_lon p) /\ p_min_lat p' = quantize_coord (p_min_lat p) /\
+    p_max_lon p' = quantize_coord (p_max_lon p) /\ p_max_lat p' = quantize_coord (p_max_lat p) /\
+    p_clon p' = quantize_coord (p_clon p) /\ p_clat p' = quantize_coord (p_clat p).
+Proof. exact roundtrip_spill. Qed.
+
+(** both cases at once: whatever image the writer returns opens to the same content *)
+Theorem C01_roundtrip_partial : forall cx, codec_inv cx -> forall asy p tiles U root0 img,
+  Inv cx (p_tm p) -> logical (p_tm p) = Ok tiles ->
+  hash_inj_on cx U -> (forall c, In c U -> nlen c < two32) ->
+  Forall (fun t => In (snd t) U /\ fst t < two63 /\ 1 <= nlen (snd t)) tiles -> nlen tiles + 1 < two32 ->
+  StronglySorted (fun a b => fst a < fst b) tiles ->
+  p_icomp p <> CUnknown -> p_meta p <> [] -> json_parse cx (p_meta p) = Ok (Some (p_meta p)) ->
+  (forall b z, b <> [] -> compress cx asy (p_icomp p) b = Ok z -> z <> []) ->
+  p_minz p < 256 -> p_maxz p < 256 -> p_cz p < 256 ->
+  header_bytes = 127 -> max_dir_depth = Some 3 ->
+  encode_dir cx asy (p_icomp p) (fr_dir (spec_finish tiles)) = Ok root0 ->
+  (forall k blobs ptrs, leaves_spec cx (p_icomp p) (chunks k (fr_dir (spec_finish tiles))) 0 = Ok (blobs, ptrs) ->
+                        Forall (fun b => 1 <= nlen b < two32) blobs) ->
+  (forall mb, compress cx asy (p_icomp p) (p_meta p) = Ok mb ->
+              127 + nlen root0 + nlen mb + nlen (fr_data (spec_finish tiles)) + 1 < two64) ->
+  to_bytes cx asy p = Ok img ->
+  exists p', from_reader cx img full_range = Ok p' /\
+    (forall id c, In (id, c) tiles -> get_tile (p_tm p') id = Ok (Some c)) /\
+    (forall id, ~ In id (map fst tiles) -> get_tile (p_tm p') id = Ok None) /\
+    p_meta p' = p_meta p /\ p_ttype p' = p_ttype p /\ p_tcomp p' = p_tcomp p /\ p_icomp p' = p_icomp p /\
+    p_minz p' = p_minz p /\ p_maxz p' = p_maxz p /\ p_cz p' = p_cz p /\
+    p_min_lon p' = quantize_coord (p_min_lon p) /\ p_min_lat p' = quantize_coord (p_min_lat p) /\
+    p_max_lon p' = quantize_coord (p_max_lon p) /\ p_max_lat p' = quantize_coord (p_max_lat p) /\
+    p_clon p' = quantize_coord (p_clon p) /\ p_clat p' = quantize_coord (p_clat p).
+Proof. exact roundtrip_any. Qed.
+
 (** the image that is written: header, root directory, metadata, tile data, back to back *)
 Theorem C01_layout : forall cx asy p res root mb,
   finish cx (p_tm p) = Ok res ->
@@ -54,6 +108,25 @@ Theorem C01_layout : forall cx asy p res root mb,
   to_bytes cx asy p = Ok (hb ++ root ++ mb ++ fr_data res).
 Proof. exact to_bytes_fits. Qed.
 
+(** ... and with leaf directories: header, root directory of pointers, metadata, leaf directories, tile data
+    (then possibly stale bytes of an earlier, longer attempt — none in practice, the harness checks the length) *)
+Theorem C01_spill_layout : forall cx asy p res root0 mb img,
+  finish cx (p_tm p) = Ok res ->
+  encode_dir cx asy (p_icomp p) (fr_dir res) = Ok root0 -> max_root_dir_length < nlen root0 ->
+  compress cx asy (p_icomp p) (p_meta p) = Ok mb -> header_bytes = 127 ->
+  to_bytes cx asy p = Ok img ->
+  exists (k : nat) blobs ptrs root junk hb,
+    (1 <= k)%nat /\ leaves_spec cx (p_icomp p) (chunks k (fr_dir res)) 0 = Ok (blobs, ptrs) /\
+    encode_dir cx asy (p_icomp p) ptrs = Ok root /\ nlen root <= max_root_dir_length /\
+    127 + nlen root + nlen mb + nlen (concat blobs) + nlen (fr_data res) < two64 /\
+    encode_header (mkH 3 127 (nlen root) (127 + nlen root) (nlen mb) (127 + nlen root + nlen mb) (nlen (concat blobs))
+               (127 + nlen root + nlen mb + nlen (concat blobs)) (nlen (fr_data res))
+               (fr_addressed res) (fr_entries res) (fr_contents res) true
+               (p_icomp p) (p_tcomp p) (p_ttype p) (p_minz p) (p_maxz p)
+               (p_min_lon p) (p_min_lat p) (p_max_lon p) (p_max_lat p) (p_cz p) (p_clon p) (p_clat p)) = Ok hb /\
+    img = hb ++ root ++ mb ++ concat blobs ++ fr_data res ++ junk.
+Proof. exact to_bytes_spill. Qed.
+
 (** non-vacuity: a concrete archive, written and read back by evaluation *)
 Example C01_example :
   let tm3 := fold_left (fun s '(i, d) => match add_tile ctx_id s i d with Ok s' => s' | _ => s end) [(5, [1;2]); (6, [1;2]); (9, [7])] (tm_empty None) in
@@ -61,4 +134,15 @@ Example C01_example :
   (do img <- to_bytes ctx_id false p; do p' <- from_reader ctx_id img full_range;
    Ok (get_tile (p_tm p') 5, get_tile (p_tm p') 6, get_tile (p_tm p') 9, get_tile (p_tm p') 7, p_meta p'))
   = Ok (Ok (Some [1;2]), Ok (Some [1;2]), Ok (Some [7]), Ok None, [123; 125]).
+Proof. vm_compute. reflexivity. Qed.
+
+(** non-vacuity of the spill case: 4200 distinct tiles do not fit the root; the image has a 13-byte root of
+    pointers and 16805 bytes of leaf directories, and reads back *)
+Example C01_spill_example :
+  let tm := fold_left (fun s i => match add_tile ctx_id s (3 * N.of_nat i) [N.of_nat i mod 256; N.of_nat i / 256] with Ok s' => s' | _ => s end)
+                      (seq 0 4200) (tm_empty None) in
+  let p := mkPM TPng CNone CGzip 0 3 1 (of_Z 0) (of_Z 0) (of_Z 0) (of_Z 0) (of_Z 0) (of_Z 0) [123; 125] tm in
+  (do img <- to_bytes ctx_id false p; do (h, _) <- decode_header img; do p' <- from_reader ctx_id img full_range;
+   Ok (h_root_len h, h_leaf_len h, get_tile (p_tm p') 0, get_tile (p_tm p') (3 * 4199), get_tile (p_tm p') 4, num_tiles (p_tm p')))
+  = Ok (13, 16805, Ok (Some [0; 0]), Ok (Some [103; 16]), Ok None, 4200).
 Proof. vm_compute. reflexivity. Qed.
